@@ -9,7 +9,11 @@ from typing import Mapping
 import numpy as np
 import re
 
-from optyx.core.errors import MissingValueError, UnknownOperatorError
+from optyx.core.errors import (
+    InvalidOperationError,
+    MissingValueError,
+    UnknownOperatorError,
+)
 
 if TYPE_CHECKING:
     from numpy.typing import ArrayLike, NDArray
@@ -435,6 +439,17 @@ def _ensure_expr(value: Expression | float | int | ArrayLike) -> Expression:
     """Convert a value to an Expression if it isn't one already."""
     if isinstance(value, Expression):
         return value
+    if hasattr(value, "_variables") or hasattr(value, "_expressions"):
+        # VectorVariable / VectorExpression / MatrixVariable / MatrixExpression:
+        # wrapping the container in a Constant would build a scalar node that
+        # cannot be evaluated.
+        raise InvalidOperationError(
+            operation="scalar expression arithmetic",
+            operand_types=(type(value).__name__,),
+            reason="A vector or matrix cannot be an operand of a scalar expression.",
+            suggestion="Reduce it to a scalar first with sum(), dot(), norm() or "
+            "indexing, or combine vectors element-wise with each other.",
+        )
     return Constant(value)
 
 
